@@ -130,6 +130,8 @@ Definition state_of (s : st) (n : str) : sstate :=
 Definition set_state (n : str) (x : sstate) (s : st) : st := w_states (aset (states s) n x) s.
 Definition reg (k : str) (v : ir) (s : st) : st := w_parsed (aset (parsed s) k v) s.
 Definition registered (k : str) (s : st) : bool := match alookup k (parsed s) with Some _ => true | None => false end.
+Definition cut_off (k : str) (s : st) : bool :=            (* registered as a depth-limit placeholder *)
+  match alookup k (parsed s) with Some e => i_depthm e | None => false end.
 
 Fixpoint update_id (id : N) (f : ir -> ir) (l : list (str * ir)) : list (str * ir) :=
   match l with
@@ -410,7 +412,8 @@ Section WithConfig.
                             | None => false
                             end in
             if pure_ref then (r, s1)
-            else if registered n s1 then (r, s1) else (r, reg n r s1)
+            (* a depth placeholder under the alias name is replaced by the re-parse (follow-up of F02d) *)
+            else if registered n s1 && negb (cut_off n s1) then (r, s1) else (r, reg n r s1)
           else (r, s1)
         | None => (r, s1)
         end
@@ -492,12 +495,10 @@ Section WithConfig.
     end.
 
   (* build_schemas (since the fix of F02d): a depth placeholder stored while parsing ANOTHER schema does not count as
-     parsed; passes are repeated (at most len(raw_schemas) times) over the names still pending at the start of the
-     pass; before a schema is (re-)parsed its tracker state is dropped (schema_states.pop: modelled as NOT_STARTED,
+     parsed; passes are repeated (at most len(raw_schemas)+1 times); before a schema is (re-)parsed its tracker state is dropped (schema_states.pop: modelled as NOT_STARTED,
      which is what a missing key reads as). *)
   Definition unparsed (k : str) (s : st) : bool :=
     match alookup k (parsed s) with Some e => i_depthm e | None => true end.
-  Definition pending_b (s : st) (p : str * node) : bool := unparsed (fst p) s && unparsed (cls (fst p)) s.
 
   Fixpoint build_pass (fuel : nat) (l : spec) (s : st) : st :=
     match l with
@@ -508,16 +509,25 @@ Section WithConfig.
       else build_pass fuel r s
     end.
 
-  Fixpoint build_iter (k : nat) (fuel : nat) (s : st) : st :=
+  (* passes (follow-up of F02d): the first pass visits every schema; later passes only the schemas that are registered
+     as depth-limit placeholders; the loop stops when nothing is pending or a pass left the pending list unchanged *)
+  Definition cutoff_b (s : st) (p : str * node) : bool := cut_off (fst p) s || cut_off (cls (fst p)) s.
+  Definition is_nil {A} (l : list A) : bool := match l with [] => true | _ => false end.
+  Definition same_names (prev : option spec) (pend : spec) : bool :=
+    match prev with
+    | None => false
+    | Some p => list_eqb str_eqb (map fst p) (map fst pend)
+    end.
+
+  Fixpoint build_iter (k : nat) (fuel : nat) (pend : spec) (prev : option spec) (s : st) : st :=
     match k with
     | O => s
     | Datatypes.S k' =>
-      match filter (pending_b s) S with
-      | [] => s
-      | pend => build_iter k' fuel (build_pass fuel pend s)
-      end
+      if is_nil pend || same_names prev pend then s
+      else let s1 := build_pass fuel pend s in
+           build_iter k' fuel (filter (cutoff_b s1) S) (Some pend) s1
     end.
-  Definition build (fuel : nat) (s : st) : st := build_iter (length S) fuel s.
+  Definition build (fuel : nat) (s : st) : st := build_iter (length S + 1) fuel S None s.
   Definition all_present (s : st) : bool :=
     forallb (fun p => registered (fst p) s || registered (cls (fst p)) s) S.
 End WithConfig.
